@@ -52,25 +52,46 @@ func (c *Collection) Condense(treatErrorAsTerminal bool) (Provider, error) {
 	// upOut upflows.
 	var downIn, upOut []reflect.Type
 	{
-		nonStaticTypes := make(map[typeCode]bool)
-		beforeInvoke, afterInvoke, err := c.characterizeAndFlatten(nonStaticTypes)
-		if err != nil {
-			return nil, err
+		// What the collection leaves unresolved arrives from outside with every call: those
+		// types are not static.  A Cacheable provider that consumes one of them is a
+		// per-invocation provider when the collection is bound (and, when it returns
+		// TerminalError, returns an error upward), so the flows have to be computed
+		// knowing that.  The set can only grow: repeat until it is stable.
+		arrives := make(map[typeCode]bool)
+		for {
+			nonStaticTypes := make(map[typeCode]bool, len(arrives))
+			for tc := range arrives {
+				nonStaticTypes[tc] = true
+			}
+			beforeInvoke, afterInvoke, err := c.characterizeAndFlatten(nonStaticTypes)
+			if err != nil {
+				return nil, err
+			}
+			ia := make([]any, 0, len(beforeInvoke)+len(afterInvoke))
+			for _, fm := range beforeInvoke {
+				ia = append(ia, fm)
+			}
+			for _, fm := range afterInvoke {
+				ia = append(ia, fm)
+			}
+			// The characterized providers are only used to compute the flows.  What gets
+			// bound is the collection as given: Bind characterizes it knowing which types
+			// arrive as invoke arguments, exactly as it would if the collection were bound
+			// directly.
+			characterized := Sequence(name, ia...)
+			downIn, _ = characterized.DownFlows()
+			upOut = characterized.netReturns()
+			grew := false
+			for _, t := range downIn {
+				if tc := getTypeCode(t); !arrives[tc] {
+					arrives[tc] = true
+					grew = true
+				}
+			}
+			if !grew {
+				break
+			}
 		}
-		ia := make([]any, 0, len(beforeInvoke)+len(afterInvoke))
-		for _, fm := range beforeInvoke {
-			ia = append(ia, fm)
-		}
-		for _, fm := range afterInvoke {
-			ia = append(ia, fm)
-		}
-		// The characterized providers are only used to compute the flows.  What gets
-		// bound is the collection as given: Bind characterizes it knowing which types
-		// arrive as invoke arguments, exactly as it would if the collection were bound
-		// directly.
-		characterized := Sequence(name, ia...)
-		downIn, _ = characterized.DownFlows()
-		upOut = characterized.netReturns()
 		c = Sequence(name, c)
 	}
 
